@@ -283,6 +283,7 @@ fn fault_violation(
         }
     }
     let slot = util::my_slot();
+    util::expect_hang(matches!(f, Fault::Loop { .. } | Fault::DeadFail { .. }));
     for t in &tails {
         let mut hay = path.to_vec();
         hay.extend_from_slice(t);
@@ -294,6 +295,7 @@ fn fault_violation(
             let _ = util::take_last_panic();
         }
     }
+    util::expect_hang(false);
     acc.count("unconfirmed_table_faults", 1);
     if acc.notes.len() < 5 {
         acc.notes.push(format!("the table interpreter reports '{what}' but executing the searches on the access haystack neither aborted nor hung: the interpreter no longer describes the code (no alarm)"));
@@ -398,20 +400,13 @@ pub fn check_ranking(prop: &str, b: &Built, pats: &[Vec<u8>], origin: &Value, ac
             }
         }
         if steps > len {
-            acc.violate("C13", "table",
-                format!("the fail chain of state {s} never reaches the root: the transition loop does not terminate"),
-                e2::with(origin.clone(), "haystack", json!(hex(&labels_to_bytes(is_char, &path_to(pos))))));
+            // the fail chain of s never reaches the root according to the stored table: executed on
+            // the access haystack (+ tails) - a real endless loop is reported by the watchdog
+            fault_violation(prop, &Fault::Loop { state: s }, origin, b, &labels_to_bytes(is_char, &path_to(pos)), acc);
             return false;
         }
         if let Err(fl) = it.chain(s, false) {
-            match fl {
-                Fault::Loop { .. } => {
-                    acc.violate("C13", "table",
-                        format!("the output chain of state {s} is cyclic: the overlapping iterator never finishes"),
-                        e2::with(origin.clone(), "haystack", json!(hex(&labels_to_bytes(is_char, &path_to(pos))))));
-                }
-                f => fault_violation(prop, &f, origin, b, &[], acc),
-            }
+            fault_violation(prop, &fl, origin, b, &labels_to_bytes(is_char, &path_to(pos)), acc);
             return false;
         }
     }
